@@ -14,6 +14,8 @@ package main
 import (
 	"context"
 	"encoding/json"
+	"path/filepath"
+	"strings"
 	"os"
 	"os/exec"
 	"runtime"
@@ -30,6 +32,7 @@ type delayedChildSpec struct {
 	Threads  [][]opx `json:"threads"`
 	OffsetMs int     `json:"offset_ms"`
 	Free     bool    `json:"free"` // free-running goroutines instead of the controlled schedule
+	Dynamic  bool    `json:"dynamic"`
 }
 
 // concChildMain: C18_CONCCHILD=<file with a JSON array of delayedChildSpec>; one JSON
@@ -42,7 +45,13 @@ func concChildMain() {
 	}
 	all := make([][][]string, len(specs))
 	for k, spec := range specs {
-		fs, err := credentials.NewFileStore(spec.Path)
+		var fs credentials.Store
+		var err error
+		if spec.Dynamic {
+			fs, err = credentials.NewStore(spec.Path, credentials.StoreOptions{AllowPlaintextPut: true})
+		} else {
+			fs, err = credentials.NewFileStore(spec.Path)
+		}
 		if err != nil {
 			continue
 		}
@@ -52,12 +61,19 @@ func concChildMain() {
 			all[k] = runControlled(fs, spec)
 		}
 	}
-	js, _ := json.Marshal(all)
+	js, _ := json.Marshal(childOutput{Results: all, SlowStart: slowStart, SlowEnd: slowEnd, OtherStarts: otherStarts, OtherEnds: otherEnds})
 	os.Stdout.Write(js)
 	os.Exit(0)
 }
 
-func runControlled(fs *credentials.FileStore, spec delayedChildSpec) [][]string {
+// time stamps of the last controlled run (child side), reported to the parent
+var (
+	slowStart, slowEnd     int64
+	otherStarts, otherEnds []int64
+	mu                     sync.Mutex
+)
+
+func runControlled(fs credentials.Store, spec delayedChildSpec) [][]string {
 	results := make([][]string, len(spec.Threads))
 	warm := make(chan struct{}) // closed when the warm-up operations are done
 	var warmWG, wg sync.WaitGroup
@@ -72,9 +88,11 @@ func runControlled(fs *credentials.FileStore, spec delayedChildSpec) [][]string 
 			runtime.LockOSThread() // this goroutine owns one OS thread: strace counts per thread
 			if i == 0 {
 				<-warm
+				slowStart = time.Now().UnixNano()
 				for j, o := range ops {
 					results[i][j] = doOp(fs, o)
 				}
+				slowEnd = time.Now().UnixNano()
 				return
 			}
 			if len(ops) > 0 {
@@ -84,7 +102,12 @@ func runControlled(fs *credentials.FileStore, spec delayedChildSpec) [][]string 
 			<-warm
 			time.Sleep(time.Duration(spec.OffsetMs) * time.Millisecond)
 			for j := 1; j < len(ops); j++ {
+				t := time.Now().UnixNano()
 				results[i][j] = doOp(fs, ops[j])
+				mu.Lock()
+				otherStarts = append(otherStarts, t)
+				otherEnds = append(otherEnds, time.Now().UnixNano())
+				mu.Unlock()
 			}
 		}(i, ops)
 	}
@@ -106,6 +129,16 @@ func childCmd(specs []delayedChildSpec) (crashkit.Cmd, string) {
 	return crashkit.Cmd{Path: exe, Env: append(os.Environ(), "C18_CONCCHILD="+f.Name()), Dir: run.Dir, Scratch: run.Dir}, f.Name()
 }
 
+type childOutput struct {
+	Results     [][][]string `json:"results"`
+	SlowStart   int64        `json:"slow_start"`
+	SlowEnd     int64        `json:"slow_end"`
+	OtherStarts []int64      `json:"other_starts"`
+	OtherEnds   []int64      `json:"other_ends"`
+}
+
+var lastChild childOutput
+
 func decodeChild(out []byte, status int, timedOut bool, err error, n int) ([][][]string, string) {
 	switch {
 	case timedOut:
@@ -114,28 +147,74 @@ func decodeChild(out []byte, status int, timedOut bool, err error, n int) ([][][
 		return nil, "exec-failed"
 	case status == 3:
 		return nil, "child-setup"
+	case status == 66:
+		return nil, "race"
 	case status != 0:
 		return nil, "crashed"
 	}
-	var all [][][]string
-	if json.Unmarshal(out, &all) != nil || len(all) != n {
+	lastChild = childOutput{}
+	if json.Unmarshal(out, &lastChild) != nil || len(lastChild.Results) != n {
 		return nil, "bad-output"
 	}
-	return all, ""
+	return lastChild.Results, ""
 }
 
-// execFree runs free-running cases in one child process (no tracing).
+// raceChild is this harness rebuilt with the Go race detector ("" = not available).
+var (
+	raceChild      string
+	raceChildTried bool
+	lastRaceReport string
+)
+
+// buildRaceChild rebuilds cmd/c18 with -race (needs cgo); the module file written by
+// bin/check next to the harness binary is reused.
+func buildRaceChild() {
+	if raceChildTried {
+		return
+	}
+	raceChildTried = true
+	_, src, _, ok := runtime.Caller(0)
+	exe, err := os.Executable()
+	if !ok || err != nil {
+		return
+	}
+	srcDir := filepath.Dir(src) // .../harness/cmd/c18
+	modfile := filepath.Join(filepath.Dir(exe), "harness.mod")
+	out := filepath.Join(run.Dir, "hx_c18_race") // per run: concurrent checks must not overwrite a running binary
+	ctx, cancel := context.WithTimeout(context.Background(), 5*time.Minute)
+	defer cancel()
+	cmd := exec.CommandContext(ctx, "go1.26.8", "build", "-race", "-modfile", modfile, "-tags", "verif", "-o", out, ".")
+	cmd.Dir = srcDir
+	cmd.Env = append(os.Environ(), "CGO_ENABLED=1", "GOFLAGS=-mod=mod", "GOPROXY=off", "GOSUMDB=off", "GOTOOLCHAIN=local")
+	if msg, err := cmd.CombinedOutput(); err != nil {
+		run.Extra["race_detector"] = "race build failed: " + strings.TrimSpace(string(msg))
+		return
+	}
+	raceChild = out
+	run.Extra["race_detector"] = "free-running concurrent cases run in a child built with -race"
+}
+
+// execFree runs free-running cases in one child process (no tracing), built
+// with the race detector when possible.
 func execFree(ps []concPrep) ([][][]string, string) {
+	buildRaceChild()
 	specs := make([]delayedChildSpec, len(ps))
 	for i, p := range ps {
-		specs[i] = delayedChildSpec{Path: p.path, Threads: p.cc.Threads, Free: true}
+		specs[i] = delayedChildSpec{Path: p.path, Threads: p.cc.Threads, Free: true, Dynamic: p.cc.Dynamic}
 	}
 	c, specFile := childCmd(specs)
 	defer os.Remove(specFile)
-	ctx, cancel := context.WithTimeout(context.Background(), time.Duration(20+len(ps)/10)*time.Second)
+	limit := time.Duration(30+len(ps)/4) * time.Second
+	ctx, cancel := context.WithTimeout(context.Background(), limit)
 	defer cancel()
-	cmd := exec.CommandContext(ctx, c.Path)
-	cmd.Env, cmd.Dir = c.Env, c.Dir
+	path := c.Path
+	if raceChild != "" {
+		path = raceChild
+	}
+	cmd := exec.CommandContext(ctx, path)
+	cmd.Env, cmd.Dir = append(c.Env, "GORACE=halt_on_error=1 exitcode=66"), c.Dir
+	var stderr strings.Builder
+	cmd.Stderr = &stderr
 	out, err := cmd.Output()
 	status := 0
 	if ee, ok := err.(*exec.ExitError); ok {
@@ -144,11 +223,19 @@ func execFree(ps []concPrep) ([][][]string, string) {
 			status = -1
 		}
 	}
+	if status == 66 {
+		r := stderr.String()
+		if i := strings.Index(r, "WARNING: DATA RACE"); i >= 0 {
+			r = r[i:]
+		}
+		if len(r) > 1200 {
+			r = r[:1200]
+		}
+		lastRaceReport = strings.Join(strings.Fields(r), " ")
+	}
 	return decodeChild(out, status, ctx.Err() != nil, err, len(ps))
 }
 
-// execDelayed runs the case in a child under strace delay injection.
-// results == nil: why = "crashed" (child died abnormally) or an infrastructure reason.
 func execDelayed(cc concCase, path string) ([][]string, string) {
 	c, specFile := childCmd([]delayedChildSpec{{Path: path, Threads: cc.Threads, OffsetMs: cc.Delay.OffsetMs}})
 	defer os.Remove(specFile)
@@ -159,6 +246,20 @@ func execDelayed(cc concCase, path string) ([][]string, string) {
 	}
 	if all[0] == nil {
 		return nil, "child-setup"
+	}
+	// the schedule is only "controlled" when it really happened: thread 0's program took at least
+	// most of the injected delay and another caller STARTED an operation inside it
+	stretch := lastChild.SlowEnd - lastChild.SlowStart
+	inside := 0
+	for _, t := range lastChild.OtherStarts {
+		if t > lastChild.SlowStart && t < lastChild.SlowEnd {
+			inside++
+		}
+	}
+	if stretch >= int64(cc.Delay.DelayMs)*1000000*8/10 && inside > 0 {
+		run.Count("conc:controlled-overlap-verified")
+	} else {
+		run.Count("conc:controlled-degenerate")
 	}
 	return all[0], ""
 }
